@@ -3,6 +3,7 @@ package main
 import (
 	"bytes"
 	"context"
+	"encoding/binary"
 	"io"
 
 	blocks "github.com/ipfs/go-block-format"
@@ -181,6 +182,27 @@ func c01LoadObs(file []byte) Val {
 		sum = br
 	}
 	return VL{VN(uint64(len(win))), sum, c01Load(win, false), c01Load(win, true)}
+}
+
+// c01ReadInput: input of kind rtread -- the file, the read options and the oracle tables for everything a
+// reader can meet in it (the file itself and its DataReader window).
+func c01ReadInput(file []byte, whole, storeID bool, blks []Blk) Val {
+	hok := c01HokTable(blks).(VL)
+	hdrs := VL{}
+	add := func(b []byte) {
+		h, d := scanTables(b)
+		hok = append(hok, h.(VL)...)
+		hdrs = append(hdrs, d.(VL)...)
+	}
+	add(file)
+	if r, err := carv2.NewReader(bytes.NewReader(file)); err == nil {
+		if dr, err := r.DataReader(); err == nil {
+			if win, err := io.ReadAll(dr); err == nil {
+				add(win)
+			}
+		}
+	}
+	return VL{VB(file), vbool(whole), vbool(storeID), hok, hdrs}
 }
 
 type c01Visits struct {
@@ -396,6 +418,32 @@ func init() {
 				ow.v1 = r.Bool()
 				emit(1, ow, roots, h, nil, false, blks, nontriv)
 			}
+			// ---- malformed stream (kind rtread, model = code only): a writer's output cut short or with a
+			// flipped byte (outside an embedded index: a damaged bucket length is C09's subject) through
+			// every reader
+			if a%3 == 0 {
+				ow := o
+				ow.v1 = r.Bool()
+				if file, class, _ := c01Write(c, pick(r, []uint64{0, 2}), ow, roots, h, nil, false); class == "" && len(file) > 0 {
+					for t := 0; t < 4; t++ {
+						f := append([]byte(nil), file...)
+						lim := len(f)
+						if !ow.v1 && len(f) >= 51 {
+							if io := binary.LittleEndian.Uint64(f[43:51]); io > 0 && io < uint64(len(f)) {
+								lim = int(io)
+							}
+						}
+						if r.Bool() {
+							f = f[:r.Intn(lim+1)]
+							c.Count("malformed:truncated")
+						} else {
+							f[r.Intn(lim)] ^= pick(r, []byte{0x01, 0x80, 0xff, 0x7f})
+							c.Count("malformed:byteflip")
+						}
+						c.Emit("rtread", c01ReadInput(f, ow.whole, ow.storeID, blks), c01ReadAll(c, f, ow.whole, ow.storeID, false), false)
+					}
+				}
+			}
 			// ---- F2: a DAG with overlapping roots through root WriteCar, and its visit sequence through
 			// the store writers (whole CIDs, identity stored): the same payload
 			if a%2 == 0 {
@@ -430,6 +478,10 @@ func init() {
 				}
 			}
 		}
+	})
+	registerReplay("rtread", func(c *Ctx, in Val) Val {
+		l := in.(VL)
+		return c01ReadAll(c, []byte(l[0].(VB)), l[1].(VN) != 0, l[2].(VN) != 0, false)
 	})
 	registerReplay("rtload", func(c *Ctx, in Val) Val { return c01LoadObs([]byte(in.(VL)[2].(VB))) })
 	registerReplay("rt", func(c *Ctx, in Val) Val {
